@@ -301,7 +301,7 @@ def judge(ctx, r, what, rep, key=None):
 def check_expand(ctx, defs):
     from adcgen import Intermediates, Expr
     rng = ctx.rng
-    t_end = time.time() + ctx.pick(110, 900)
+    t_end = time.time() + ctx.pick(110, 500)
     names = sorted(n for n in Intermediates().available if n not in ("t4_2",) and n not in defs.residuals)
     n = ctx.pick(40, 500)
     for it in range(n):
@@ -527,7 +527,7 @@ def check_factor(ctx, defs):
     grid = list(grid_inputs(ctx, ["t2_1", "t2eri_3", "t2sq"] if ctx.quick() else FACTORABLE))
     grid += list(mixed_grid_inputs(ctx, ["t2_2"] if ctx.quick() else ["t2_2", "t1_2", "p0_2_oo", "p0_2_vv"]))
     grid.insert(0, known_probe_input())
-    t_end = time.time() + ctx.pick(150, 1500)
+    t_end = time.time() + ctx.pick(150, 800)
     for it in range(n + len(grid)):
         if time.time() > t_end:
             ctx.count("time_budget_reached(factor)")
@@ -689,7 +689,7 @@ def check_reduce(ctx, defs):
     from adcgen import Expr, reduce_expr
     from props.c13 import scalar_step_x
     n = ctx.pick(25, 250)
-    t_end = time.time() + ctx.pick(130, 900)
+    t_end = time.time() + ctx.pick(130, 500)
     for it in range(n):
         if time.time() > t_end:
             ctx.count("time_budget_reached(reduce)")
